@@ -20,6 +20,8 @@ RULES = {
     "R16.5": "Network::connect compares the element counts of the two layers' inputs, indexing layers[infrom] and "
              "layers[into] respectively, and rejects unequal counts",
 }
+RULES["R16.3"] += " | a Mean arm written as add + division must divide by the number of tensors combined"
+RULES["R16.1"] += " | guards are taken from the path conditions of the insert (panicking guard clauses, else-if chains, enclosing branches; negations and disjunctions split into atoms)"
 ASSUMPTIONS = ["connections are registered through Network::connect (the map is a pub field; direct mutation is outside the property)",
                "values are not decided: only which tensors are combined, with which primitive, under which key"]
 TRUSTED = ["rustc nightly front end", "driver/src/main.rs", "sa/e4.py"]
